@@ -8,6 +8,12 @@ TRUST = ("sqlite3, CPython, simplejson, pyfaidx and the OS are trusted; exhausti
 
 # id -> (engine, technique, level text, design_ref, note)
 CHECKS = {
+ "C19": ("E1", "stateless exhaustive enumeration of (old database, new input, force) and of all read-call sequences up to a length bound, with a sqlite statement trace and canonical file comparison",
+         "Every (old database kind, new input, force, input form) combination checks that create_db without force raises and leaves the file's canonical content unchanged and with force equals a fresh import; every sequence of <= 3 (quick) / <= 4 (thorough) of 17 read-style calls on copies of 3 file databases runs under a statement trace (only SELECT/PRAGMA allowed) and the closed file is compared canonically (all tables, counters, dialect, directives) and reopened.",
+         "3/C19", "sqlite3's trace callback is trusted to see every statement; byte identity is reported, not judged; " + TRUST),
+ "C20": ("E3", "systematic schedule enumeration of real forked processes under a controlled scheduler (all interleavings for 2 imports; pre-emption-bounded for 3 imports and for readers), forced temp-name collisions",
+         "Real create_db processes sharing one temp directory are serialised at every temp-directory operation; for six 2-process job sets every interleaving, for three 3-process sets every schedule within 1 (quick) / 2 (thorough) pre-emptions, is executed; each output database is compared canonically with a solitary run and the shared directory must be empty. 2 and 3 concurrent readers of one file are scheduled at connect/statement/commit/row-fetch granularity within a pre-emption bound and must all observe the full content.",
+         "3/C20", "one process runs at a time; OS/sqlite atomicity trusted; 2-3 processes only; " + TRUST),
  "C02": ("E1", "stateless exhaustive enumeration of all small Parent DAGs x dangling value x every line permutation against the real importer and relation queries",
          "Every DAG on <= 4 (quick) / <= 5 (thorough) labelled features, with a dangling Parent value on at most one feature and every permutation of the lines, is imported by the real create_db; children()/parents() for every feature, level, featuretype and order_by, plus iter_by_parent_childs, are compared with the closure computed from the Parent lists.",
          "3/C02", "unique ids; two relation levels; " + TRUST),
